@@ -89,12 +89,6 @@ def SourceFacts : Prop :=
     Golib.Gen.C06.decodeInvalidThen = ["return -1 - rune(s[i]), 1"] ∧
     -- decodeRune: final return
     Golib.Gen.C06.decodeRet = "return r, size" ∧
-    -- runeLen: condition
-    Golib.Gen.C06.runeLenCond = "r < 0" ∧
-    -- runeLen: then-branch
-    Golib.Gen.C06.runeLenThen = ["return 1"] ∧
-    -- runeLen: final return
-    Golib.Gen.C06.runeLenElse = "return utf8.RuneLen(r)" ∧
     -- writeRune: condition
     Golib.Gen.C06.writeRuneCond = "r < 0" ∧
     -- writeRune: then-branch
